@@ -1162,11 +1162,77 @@ class SVCB(Custom):
         return (int(rd.priority), rd.target, [(int(k), self.ptree(int(k), rd.params[k])) for k in sorted(rd.params)])
 
     def build_alt(self, cls, rdclass, rdtype, t, salt):
-        """the same parameters inserted in descending key order, mandatory keys listed descending"""
+        """the same parameters inserted in descending key order; the mandatory list descending and spelled as
+        numbers, as names (`ipv4hint`), as `keyNNN`, as bytes, or mixed — spelling order differs from value order"""
+        import dns.rdtypes.svcbbase as sb
+
         prio, target, ps = t
         if len(ps) < 2 and not any(k == 0 and len(v) > 1 for k, v in ps):
             return None
-        return self.build(cls, rdclass, rdtype, (prio, target, [(k, (v[::-1] if k == 0 else v)) for k, v in ps[::-1]]))
+
+        def spell(k, j):
+            m = (salt + j) % 5 if salt % 4 == 3 else salt % 4
+            if m == 0:
+                return k
+            if m == 1:
+                return sb.key_to_text(k)
+            if m == 2:
+                return f"key{k}"
+            return sb.key_to_text(k).encode() if m == 3 else f"KEY{k}"
+
+        def mand(v):
+            return [spell(k, j) for j, k in enumerate(v[::-1])]
+
+        self._mand = mand
+        try:
+            return self.build(cls, rdclass, rdtype, (prio, target, [(k, v) for k, v in ps[::-1]]))
+        finally:
+            self._mand = None
+
+    _mand = None
+
+    def build_text(self, c, t, tree, origin):
+        """the same record through from_text, parameters in descending order, mandatory keys by name, descending;
+        None when a value has no simple text form"""
+        import base64
+
+        import dns.rdtypes.svcbbase as sb
+
+        prio, target, ps = tree
+        if origin is not None or not target.is_absolute():
+            return None
+        words = []
+        for k, v in ps[::-1]:
+            name = sb.key_to_text(k)
+            if k == 0:
+                if not v:
+                    return None
+                words.append(name + "=" + ",".join((sb.key_to_text(x) if (x + len(ps)) % 2 else f"key{x}") for x in v[::-1]))
+            elif k in (1, 10):
+                if not v or not all(x.isalnum() and x.isascii() for x in v):
+                    return None
+                words.append(name + "=" + ",".join(x.decode() for x in v))
+            elif k in (2, 8):
+                words.append(name)
+            elif k == 3:
+                words.append(f"{name}={v}")
+            elif k == 4:
+                if not v:
+                    return None
+                words.append(name + "=" + ",".join(dns.ipv4.inet_ntoa(a) for a in v))
+            elif k == 6:
+                if not v:
+                    return None
+                words.append(name + "=" + ",".join(dns.ipv6.inet_ntoa(a) for a in v))
+            elif k == 5:
+                if not v:
+                    return None
+                words.append(name + "=" + base64.b64encode(v).decode())
+            else:
+                if v and not (v.isalnum() and v.isascii()):
+                    return None
+                words.append(name + (("=" + v.decode()) if v else ""))
+        return dns.rdata.from_text(c, t, f"{prio} {target.to_text()} " + " ".join(words))
 
     def build(self, cls, rdclass, rdtype, t):
         import dns.rdtypes.svcbbase as sb
@@ -1175,7 +1241,7 @@ class SVCB(Custom):
         params = {}
         for k, v in ps:
             if k == 0:
-                p = sb.MandatoryParam(v)
+                p = sb.MandatoryParam(self._mand(v) if self._mand else v)
             elif k == 1:
                 p = sb.ALPNParam(tuple(v)) if v else None
             elif k == 10:
@@ -1657,6 +1723,44 @@ def derel(tree, origin):
     return tree
 
 
+def bitmap_text_route(c, t, tree, origin, salt):
+    """NSEC / NSEC3 / CSYNC through from_text with the type mnemonics unsorted, duplicated and partly as TYPEnnn
+    (`Bitmap.from_rdtypes` sorts and dedups); None when the windows are not what from_rdtypes produces"""
+    import base64
+
+    windows = tree[-1] if isinstance(tree, tuple) else None
+    if origin is not None or not isinstance(windows, list) or not windows:
+        return None
+    codes = []
+    for wn, bm in windows:
+        if not bm or bm[-1] == 0:
+            return None
+        for i, byte in enumerate(bm):
+            for j in range(8):
+                if byte & (0x80 >> j):
+                    codes.append(wn * 256 + i * 8 + j)
+    if 0 in codes or len(codes) > 40:
+        return None
+    words = [(dns.rdatatype.to_text(dns.rdatatype.RdataType.make(x)) if (x + salt) % 3 else f"TYPE{x}") for x in codes[::-1]]
+    words += words[: 1 + salt % 2]  # duplicates
+    if salt % 2:
+        words = words[1:] + words[:1]
+    types = " ".join(words)
+    if t == 47:
+        if not tree[0].is_absolute():
+            return None
+        text = f"{tree[0].to_text()} {types}"
+    elif t == 62:
+        text = f"{tree[0]} {tree[1]} {types}"
+    else:
+        alg, flags, it, salt_b, nxt, _ = tree
+        if not nxt:
+            return None
+        b32 = base64.b32encode(nxt).decode().rstrip("=").translate(str.maketrans("ABCDEFGHIJKLMNOPQRSTUVWXYZ234567", "0123456789ABCDEFGHIJKLMNOPQRSTUV"))
+        text = f"{alg} {flags} {it} {salt_b.hex() if salt_b else '-'} {b32} {types}"
+    return dns.rdata.from_text(c, t, text)
+
+
 def extra_value_oracle(ctx, case, rep, spec, cls, c, t, tree, rd, w, origin, sigt, tname):
     """second routes that must agree with the first: other argument forms, the generic form, == / != on records
     that differ"""
@@ -1673,6 +1777,26 @@ def extra_value_oracle(ctx, case, rep, spec, cls, c, t, tree, rd, w, origin, sig
         if alt.to_wire(origin=origin) != w or not (alt == rd) or alt != rd:
             ctx.fail(f"C02/constructor/alternate-argument-form-differs/{sigt}",
                      f"{tname} {case['tree']}: the same value given in another accepted form encodes or compares differently", rep)
+    # (a') the text route of the types whose constructors normalise (sort, dedup) what they are given
+    rt = None
+    try:
+        if hasattr(spec, "build_text"):
+            rt = spec.build_text(c, t, tree, origin)
+        elif t in (47, 50, 62) and not spec.custom and spec is not GENERIC:
+            rt = bitmap_text_route(c, t, tree, origin, salt)
+    except Exception as e:  # noqa: BLE001
+        ctx.fail(f"C02/text-route/rejected:{type(e).__name__}/{sigt}",
+                 f"{tname} {case['tree']}: the same value written as text (keys/types unsorted, by name and by number) is rejected: {e}", rep)
+    if rt is not None:
+        ctx.count("val.text-route")
+        try:
+            wt = rt.to_wire(origin=origin)
+            back = dns.rdata.from_wire(c, t, wt, 0, len(wt), origin)
+            if wt != w or not (rt == rd) or not (back == rt):
+                ctx.fail(f"C02/text-route/differs/{sigt}", f"{tname} {case['tree']}: built from text it encodes to {wt.hex()} instead of {w.hex()}", rep)
+        except dns.exception.DNSException as e:
+            ctx.fail(f"C02/text-route/decode-rejects-own-encoding/{sigt}",
+                     f"{tname} {case['tree']}: the record built from text encodes to octets from_wire rejects ({type(e).__name__})", rep)
     # (b) RFC 3597 generic form of a known record
     try:
         g = rd.to_generic(origin)
